@@ -3,6 +3,8 @@
 package main
 
 import (
+	"bytes"
+	"encoding/pem"
 	"fmt"
 	"os"
 	"strings"
@@ -54,7 +56,9 @@ func init() {
 
 // dispatchArgs records, independently of the table, what every sniffer and every parser does on this input.
 func dispatchArgs(name string, data []byte) []string {
-	args := []string{hxs(name), hx(data), "S"}
+	// B <blocks> <pgp blocks>: what encoding/pem finds in the content, block by block, and how many labels start with "PGP "
+	total, pgp := pemBlockCounts(data)
+	args := []string{hxs(name), hx(data), "B", fmt.Sprint(total), fmt.Sprint(pgp), "S"}
 	for _, s := range sniffOrder {
 		v := guard(func() string {
 			if sniffFns[s](name, data, int64(len(data))) {
@@ -72,6 +76,25 @@ func dispatchArgs(name string, data []byte) []string {
 		args = append(args, toks...)
 	}
 	return args
+}
+
+func pemBlockCounts(data []byte) (total, pgp int) {
+	rest := data
+	for {
+		i := bytes.Index(rest, []byte("-----BEGIN "))
+		if i < 0 {
+			return
+		}
+		var b *pem.Block
+		b, rest = pem.Decode(rest[i:])
+		if b == nil {
+			return
+		}
+		total++
+		if strings.HasPrefix(b.Type, "PGP ") {
+			pgp++
+		}
+	}
 }
 
 func emitInspect(name string, data []byte) { emit("inspect", dispatchArgs(name, data)...) }
